@@ -113,6 +113,19 @@ def showMode : Mode → String
 def showIO : IOEff → String
   | .auto => "auto" | .inside => "inside" | .outside => "outside"
 
+/-- O <id> <s|e|c|A> | J | L <n> v… -/
+partial def collVal : P CollVal := do
+  match (← tok) with
+  | "J" => pure .junk
+  | "O" => do
+      let i ← nat
+      let k ← tok
+      pure (.obj i (if k == "s" then .source else if k == "e" then .sensor else if k == "c" then .collection else .selfOrAncestor))
+  | "L" => do
+      let n ← nat
+      pure (.seq (← many n collVal))
+  | t => throw s!"bad collection value {t}"
+
 def callArgs (cmd : String) : P (Option String) := do
   match cmd with
   | "pixelagg" => do pure (some (showRes (checkPixelAgg NpNames.table (← value))))
@@ -153,6 +166,12 @@ def callArgs (cmd : String) : P (Option String) := do
         | .ok p => match styleRealise p with
           | .ok () => "ok"
           | .error e => "late-" ++ showErr e))
+  | "collval" => do
+      let which ← tok
+      let v ← collVal
+      pure (some (match (if which == "children" then childrenSetter v else collectionsSetter v) with
+        | .ok os => (" ".intercalate ("ok" :: os.map fun o => toString o.1))
+        | .error e => showErr e))
   | "setterform" => do
       -- what the analysis of the regenerated statement tree says about a rejected assignment through this setter
       let c ← tok
